@@ -16,6 +16,7 @@ package marbl
 
 import (
 	"bufio"
+	"bytes"
 	"encoding/binary"
 	"fmt"
 	"io"
@@ -101,13 +102,19 @@ func (r *Reader) ReadFrame() (Frame, error) {
 		nl := binary.BigEndian.Uint32(lens[:4])
 		vl := binary.BigEndian.Uint32(lens[4:])
 
-		nv := make([]byte, int(nl+vl))
-		if _, err := io.ReadFull(r.r, nv); err != nil {
+		// The lengths are read separately: their sum does not fit in 32 bits for
+		// every input.
+		name, err := r.readN(nl)
+		if err != nil {
+			return nil, err
+		}
+		value, err := r.readN(vl)
+		if err != nil {
 			return nil, err
 		}
 
-		hf.Name = string(nv[:nl])
-		hf.Value = string(nv[nl:])
+		hf.Name = string(name)
+		hf.Value = string(value)
 
 		return hf, nil
 	case DataFrame:
@@ -131,8 +138,8 @@ func (r *Reader) ReadFrame() (Frame, error) {
 		dl := binary.BigEndian.Uint32(desc[5:])
 
 
-		data := make([]byte, int(dl))
-		if _, err := io.ReadFull(r.r, data); err != nil {
+		data, err := r.readN(dl)
+		if err != nil {
 			return nil, err
 		}
 
@@ -142,4 +149,19 @@ func (r *Reader) ReadFrame() (Frame, error) {
 	default:
 		return nil, fmt.Errorf("marbl: unknown type of frame")
 	}
+}
+
+// readN reads exactly n bytes. The buffer grows as bytes arrive, so a frame that
+// announces more bytes than the input holds ends in an error instead of an
+// allocation of the announced size.
+func (r *Reader) readN(n uint32) ([]byte, error) {
+	var buf bytes.Buffer
+	if _, err := io.CopyN(&buf, r.r, int64(n)); err != nil {
+		if err == io.EOF {
+			err = io.ErrUnexpectedEOF
+		}
+		return nil, err
+	}
+
+	return buf.Bytes(), nil
 }
